@@ -284,6 +284,35 @@ func init() {
 		e.assertPC(And(IGe(r, lo), ILt(r, hi), Implies(And(IGe(t, lo), ILt(t, hi)), Eq(r, t))))
 		return []Value{r}
 	}
+	// (*big.Int).Uint64: the low 64 bits of |x| (math/big calls the result undefined when x does not fit; the
+	// implementation returns the low word) — what makes a truncating amount conversion visible
+	models["(*math/big.Int).Uint64"] = func(e *Exec, a []Value) []Value {
+		t := e.intNN(a[0])
+		// in range: the value itself (the same Int->BV link Uint64() of math.Int uses). Out of range: the low word,
+		// kept as an uninterpreted function of x — relating it to x arithmetically (mod 2^64 through bv2nat) stalls
+		// all three solvers; the native replay computes the real low word, so a counterexample that depends on it
+		// is still confirmed or refuted against the real code.
+		if e.decideBool(And(IGe(t, IntI(0)), ILt(t, IntConst(pow2(64))))) {
+			return []Value{e.intU64(t)}
+		}
+		return []Value{App("bigint.lo64", BV(64), t)}
+	}
+	models["(*math/big.Int).IsUint64"] = func(e *Exec, a []Value) []Value {
+		t := e.intNN(a[0])
+		return []Value{And(IGe(t, IntI(0)), ILt(t, IntConst(pow2(64))))}
+	}
+	models["(*math/big.Int).IsInt64"] = func(e *Exec, a []Value) []Value {
+		t := e.intNN(a[0])
+		return []Value{And(IGe(t, IntConst(new(bigInt).Neg(pow2(63)))), ILt(t, IntConst(pow2(63))))}
+	}
+	models["(*math/big.Int).Sign"] = func(e *Exec, a []Value) []Value {
+		t := e.intNN(a[0])
+		return []Value{Ite(IGt(t, IntI(0)), BVI(1, 64), Ite(Eq(t, IntI(0)), BVI(0, 64), BVI(-1, 64)))}
+	}
+	models["(*math/big.Int).Cmp"] = func(e *Exec, a []Value) []Value {
+		x, y := e.intNN(a[0]), e.intNN(a[1])
+		return []Value{Ite(ILt(x, y), BVI(-1, 64), Ite(Eq(x, y), BVI(0, 64), BVI(1, 64)))}
+	}
 	models["github.com/cosmos/cosmos-sdk/types.TokensToConsensusPower"] = func(e *Exec, a []Value) []Value {
 		t := intOf(e, a[0])
 		return []Value{e.intI64(goQuo(t.T, IntI(1000000)))}
